@@ -473,4 +473,10 @@ def main(check_fn, pid):
         run.violation("build:" + hashlib.sha1(str(e).encode()).hexdigest()[:8],
                       "build step failed: " + str(e)[:300],
                       {"broken": "build", "detail": str(e)[-4000:]}, found_input=False)
+    except Exception as e:  # the machinery itself broke: the property is no longer shown to hold
+        import traceback
+        tb = traceback.format_exc()
+        log(tb)
+        run.violation("machinery:" + type(e).__name__, "check machinery failed: %s: %s" % (type(e).__name__, str(e)[:300]),
+                      {"broken": "machinery", "detail": tb[-4000:]}, found_input=False)
     sys.exit(run.finish())
